@@ -305,7 +305,7 @@ def run_sequence(rng, calls=None, ck=None):
         elif c == "alias":
             y = rng.choice(pts)
             a = rng.choice([lambda: (x + y) - y, lambda: 2 * x / 2, lambda: x * 1, lambda: (x - 0.5 * y) + 0.5 * y,
-                            lambda: x + 0 * y])()
+                            lambda: x + 0 * y, lambda: 0 * y, lambda: 0 * x, lambda: x - x, lambda: (0 * y) * 1])()
             pts.append(a)
         ck.check_all(list(Function.list_of_functions), "%s on %s function (step %d)" % (c, kind, step))
         if ck.viol:
